@@ -89,14 +89,16 @@ func (buf *BipBuffer) Claim(n int) []byte {
 // Commit n bytes of the previously claimed slice. Returns the committed chunk
 // at the tail of the buffer.
 func (buf *BipBuffer) Commit(n int) []byte {
-	if n == 0 {
-		buf.claimHead = 0
-		buf.claimTail = 0
-		return nil
-	}
 	toCommit := buf.claimTail - buf.claimHead
 	if toCommit > n {
 		toCommit = n
+	}
+	if toCommit <= 0 {
+		// Nothing to commit. Committing an empty claim must not move the head of an empty buffer away from the
+		// start of the array, otherwise the next Claim is granted less than the buffer's full size.
+		buf.claimHead = 0
+		buf.claimTail = 0
+		return nil
 	}
 	var head, tail int
 	if buf.Committed() == 0 {
